@@ -127,6 +127,32 @@ pub fn run(ctx: &mut Ctx) {
             ctx.count("deep_chain_envelopes");
             roundtrip(ctx, &deep, "deep-chain", None);
         }
+        // very wide nodes: 4096 elements and more, array heads 0x99 / 0x9a (built by decoding the model's bytes:
+        // assembling them one assertion at a time is quadratic)
+        if case % 8000 == 17 {
+            let widths = [4094usize, 4095, 4096, 4097, 5000, 65534, 65535, 65536, 70000];
+            let w = widths[(case / 8000) as usize % widths.len()];
+            let asr: Vec<gen::M> = (0..w).map(|i| gen::M::Assertion(Box::new(gen::M::Leaf(crate::spec::Item::UInt(i as u64))), Box::new(gen::M::Leaf(crate::spec::Item::UInt((i % 7) as u64))))).collect();
+            let wide = gen::M::Node(Box::new(gen::M::Leaf(crate::spec::Item::Text("wide".into()))), asr);
+            let wb = wide.bytes();
+            ctx.count("very_wide_nodes");
+            ctx.eval();
+            match trap::guard(|| Envelope::try_from_cbor_data(wb.clone())) {
+                Ok(Ok(we)) => {
+                    roundtrip(ctx, &we, "very-wide", Some(&wb));
+                    // ... and inside other cases
+                    roundtrip(ctx, &we.wrap_envelope().add_assertion("outer", case), "very-wide-wrapped", None);
+                    if let Ok(c) = we.compress() {
+                        match c.uncompress() {
+                            Ok(u) if env_bytes(&u) == wb => {}
+                            _ => ctx.violation("very-wide/uncompress", &format!("a node with {} assertions does not come back from compress/uncompress", w), J::i(w as u64)),
+                        }
+                    }
+                }
+                Ok(Err(err)) => ctx.violation("very-wide/decode-rejects-valid-encoding", &format!("a valid node with {} assertions is rejected: {}", w, err), J::i(w as u64)),
+                Err(p) => ctx.violation(&format!("very-wide/panic/{}", p.signature()), &format!("{:?}", p), J::i(w as u64)),
+            }
+        }
         // obscured variants
         let key = fresh_key(&mut rng);
         let rounds = rng.range(1, 4);
